@@ -43,7 +43,7 @@ Section H.
     match c with
     | HB b => let '(h', _, r) := bstep h b in (h', r)
     | HSetMeta n m => set_meta h n m
-    | HInsert o m src parent => let '(h', _, r) := insert_hugr h (brun (init o m) src) parent in (h', r)
+    | HInsert o m src parent => let '(h', _, r) := insert_hugr [] h (brun (init o m) src) parent in (h', r)
     end.
   Definition hrun (h : store) (cs : list hcmd) : store := fold_left (fun s c => fst (hstep s c)) cs h.
 End H.
